@@ -308,6 +308,155 @@ class SumTo(_ListSpec):
 def _native_sumto():
     ns = {}; exec(SRC_SUMTO, ns); xs = [3, 4]; ns['sum_to'](xs); return xs != [3, 4]
 
+SRC_PUT2 = '''
+def put2(d, k, v):
+    d[k] = v
+    return len(d)
+'''
+class Put2(Spec):
+    def bind(self, E, p):
+        h = p.heap
+        for nme in ('$len', '$dkeys:int', '$dhas:int', '$dmap:int:int'): h.arr(nme)
+        self.h0 = h.copy(); self.d = z3.Const('d', Ref); self.k, self.v = z3.Ints('k v'); p.env.update(d=V('dict[int,int]', self.d), k=vint(self.k), v=vint(self.v))
+        self.n0 = ln(self.h0, self.d); self.has0 = self.h0.load(self.d, '$dhas:int'); self.map0 = self.h0.load(self.d, '$dmap:int:int'); self.keys0 = self.h0.load(self.d, '$dkeys:int')
+        p.pc += [self.d != NULL, self.h0.alloc[self.d], self.n0 >= 0]
+    def may_write(self, E, p, ref, field): return ref == self.d
+    def ensures(self, E, ctx, p, ret):
+        h = p.heap; has1 = h.load(self.d, '$dhas:int'); map1 = h.load(self.d, '$dmap:int:int'); keys1 = h.load(self.d, '$dkeys:int'); o = fresh('sk', I)
+        return [('T:stored', And(has1[self.k], map1[self.k] == self.v)), ('T:others-kept', Implies(o != self.k, And(has1[o] == self.has0[o], map1[o] == self.map0[o]))),
+                ('T:len', ret.term == self.n0 + If(self.has0[self.k], 0, 1)), ('T:new-key-appended-last', Implies(Not(self.has0[self.k]), keys1[self.n0] == self.k)),
+                ('T:order-of-old-keys-kept', ctx.forall(1, lambda i: Implies(And(0 <= i, i < self.n0), keys1[i] == self.keys0[i]))), ('F:len-never-changes', ret.term == self.n0)]
+def _native_put2():
+    ns = {}; exec(SRC_PUT2, ns); return ns['put2']({}, 1, 1) != 0
+
+SRC_GETK = '''
+def getk(d, k):
+    return d[k]
+'''
+class GetK(Put2):
+    def ensures(self, E, ctx, p, ret): return [('T:value', ret.term == self.map0[self.k])]
+def _native_getk():
+    ns = {}; exec(SRC_GETK, ns)
+    try: ns['getk']({}, 1); return False
+    except KeyError: return True
+
+SRC_SEEN = '''
+def seen(s, x):
+    r = x in s
+    s.add(x)
+    return r
+'''
+class Seen(Spec):
+    def bind(self, E, p):
+        h = p.heap; h.arr('$dhas:int'); self.h0 = h.copy(); self.s = z3.Const('s', Ref); self.x = z3.Int('x'); p.env.update(s=V('set[int]', self.s), x=vint(self.x))
+        self.has0 = self.h0.load(self.s, '$dhas:int'); p.pc += [self.s != NULL, self.h0.alloc[self.s]]
+    def may_write(self, E, p, ref, field): return ref == self.s
+    def ensures(self, E, ctx, p, ret):
+        has1 = p.heap.load(self.s, '$dhas:int'); o = fresh('sk', I)
+        return [('T:was-member', ret.term == self.has0[self.x]), ('T:member-now', has1[self.x]), ('T:others-kept', Implies(o != self.x, has1[o] == self.has0[o])), ('F:never-seen', Not(ret.term))]
+def _native_seen():
+    ns = {}; exec(SRC_SEEN, ns); return ns['seen']({3}, 3) is True
+
+SRC_SAFE = '''
+def safe_get(xs, i):
+    try:
+        return xs[i]
+    except IndexError:
+        return -1
+'''
+class SafeGet(_ListSpec):
+    ints = ('i',)
+    def ensures(self, E, ctx, p, ret):
+        i, n, r = self.i, self.n0, ret.term
+        return [('T:in-range-nonneg', Implies(And(0 <= i, i < n), r == self.it0[i])), ('T:in-range-negative', Implies(And(-n <= i, i < 0), r == self.it0[n + i])), ('T:out-of-range', Implies(Or(i >= n, i < -n), r == -1)),
+                ('F:negative-indices-are-out-of-range', Implies(i < 0, r == -1))]
+    unsupported = True          # an implicit IndexError caught by the enclosing try: the engine must refuse (it models implicit raises as obligations, not as control flow)
+def _native_safe():
+    ns = {}; exec(SRC_SAFE, ns); return ns['safe_get']([4, 5], -1) != -1
+
+SRC_USE = '''
+def use(x):
+    y = helper(x)
+    return y + 1
+'''
+class Use(Spec):
+    """calls by contract: the callee's precondition is an obligation at the call site (here false: nothing is known about x), its postcondition is all the caller learns"""
+    def __init__(self): self.callees = {'helper': self.k_helper}
+    def bind(self, E, p): self.x = z3.Int('x'); p.env['x'] = vint(self.x)
+    def k_helper(self, E, p, args, kw, node):
+        E.emit(p, 'callsite:F:helper-requires-nonnegative', args[0].term >= 0, node.lineno); y = fresh('y', I); p.pc.append(y > args[0].term); return vint(y)
+    def ensures(self, E, ctx, p, ret): return [('T:greater', ret.term > self.x + 1), ('F:exactly-plus-two', ret.term == self.x + 2)]
+def _native_use():
+    ns = {'helper': lambda x: x + 5}; exec(SRC_USE, ns); return ns['use'](-1) != 1        # a helper satisfying the contract for which the false clauses fail
+
+SRC_INNER = '''
+def inner_bad(xs, n):
+    for i in range(n):
+        for j in range(n):
+            xs[j] = i
+            if j > 0:
+                xs[0] = -1
+    return xs
+'''
+class InnerBad(_ListSpec):
+    """nested loops: the INNER invariant `xs[k] == i for k < j` is not inductive"""
+    ints = ('n',)
+    def pre(self, E, p): p.pc += [0 <= self.n, self.n <= self.n0]
+    def inv_outer(self, E, ctx, p, pre, i): return [('range', And(0 <= i, i <= self.n)), ('len', ln(p.heap, self.xs) == self.n0)]
+    def inv_inner(self, E, ctx, p, pre, j):
+        h = p.heap; i = pre.env['$i0'].term
+        return [('range', And(0 <= j, j <= self.n)), ('len', ln(h, self.xs) == self.n0), ('F:prefix-holds-i', ctx.forall(1, lambda k: Implies(And(0 <= k, k < j), items_i(h, self.xs)[k] == i)))]
+    invariants = property(lambda self: {0: self.inv_outer, 1: self.inv_inner})
+    def ensures(self, E, ctx, p, ret): return [('T:len-kept', ln(p.heap, self.xs) == self.n0)]
+def _native_inner():
+    ns = {}; exec(SRC_INNER, ns); return ns['inner_bad']([9, 9], 2)[0] == -1
+
+SRC_INDEXOF = '''
+def index_of(xs, v):
+    for i, x in enumerate(xs):
+        if x == v:
+            return i
+    return -1
+'''
+class IndexOf(Find):
+    def inv(self, E, ctx, p, pre, i):
+        h = p.heap
+        return [('range', And(0 <= i, i <= self.n0)), ('kept', And(ln(h, self.xs) == self.n0, items_i(h, self.xs) == self.it0)), ('none-before', ctx.forall(1, lambda j: Implies(And(0 <= j, j < i), self.it0[j] != self.v)))]
+def _native_indexof():
+    ns = {}; exec(SRC_INDEXOF, ns); return ns['index_of']([1, 1], 1) != 1
+
+SRC_EVENS = '''
+def evens(xs):
+    return [x for x in xs if x % 2 == 0]
+'''
+class Evens(_ListSpec):
+    def ensures(self, E, ctx, p, ret):
+        h = p.heap; r = ret.term
+        return [('T:all-even', ctx.forall(1, lambda k: Implies(And(0 <= k, k < ln(h, r)), items_i(h, r)[k] % 2 == 0))), ('T:not-longer', ln(h, r) <= self.n0), ('T:source-kept', And(ln(h, self.xs) == self.n0, items_i(h, self.xs) == self.it0)),
+                ('F:keeps-everything', ln(h, r) == self.n0)]
+def _native_evens():
+    ns = {}; exec(SRC_EVENS, ns); return len(ns['evens']([1, 2])) != 2
+
+SRC_GUARD = '''
+def guarded(xs, i):
+    return xs[i] if 0 <= i and i < len(xs) else 0
+'''
+class Guarded(_ListSpec):
+    ints = ('i',)
+    def ensures(self, E, ctx, p, ret): return [('T:value', ret.term == If(And(0 <= self.i, self.i < self.n0), self.it0[self.i], 0))]
+SRC_HALFGUARD = '''
+def half_guarded(xs, i):
+    return xs[i] if i < len(xs) else 0
+'''
+class HalfGuarded(_ListSpec):
+    """only the upper bound is tested: i < -len(xs) raises IndexError, which the engine must report"""
+    ints = ('i',)
+    def ensures(self, E, ctx, p, ret): return [('T:upper', Implies(self.i >= self.n0, ret.term == 0))]
+def _native_halfguard():
+    ns = {}; exec(SRC_HALFGUARD, ns)
+    try: ns['half_guarded']([1], -2); return False
+    except IndexError: return True
+
 SRC_NONE = '''
 def first_or_zero(xs):
     if not xs:
@@ -328,13 +477,16 @@ class FirstOrZero(Spec):
 def _native_none():
     ns = {}; exec(SRC_NONE, ns); return ns['first_or_zero'](None) == 0 and ns['first_or_zero']([]) == 0
 
-CASES = [('first_or_zero', SRC_NONE, FirstOrZero, _native_none), ('zero_fill', SRC_ZERO, ZeroFill, None), ('clobber', SRC_CLOBBER, Clobber, _native_clobber), ('clobber_w', SRC_CLOBBER_W, ClobberW, _native_clobber_w),
+CASES = [('put2', SRC_PUT2, Put2, _native_put2), ('getk', SRC_GETK, GetK, _native_getk), ('seen', SRC_SEEN, Seen, _native_seen), ('safe_get', SRC_SAFE, SafeGet, _native_safe), ('use', SRC_USE, Use, _native_use),
+         ('inner_bad', SRC_INNER, InnerBad, _native_inner), ('index_of', SRC_INDEXOF, IndexOf, _native_indexof), ('evens', SRC_EVENS, Evens, _native_evens), ('guarded', SRC_GUARD, Guarded, None),
+         ('half_guarded', SRC_HALFGUARD, HalfGuarded, _native_halfguard),
+         ('first_or_zero', SRC_NONE, FirstOrZero, _native_none), ('zero_fill', SRC_ZERO, ZeroFill, None), ('clobber', SRC_CLOBBER, Clobber, _native_clobber), ('clobber_w', SRC_CLOBBER_W, ClobberW, _native_clobber_w),
          ('alias', SRC_ALIAS, Alias, _native_alias), ('fdiv', SRC_FDIV, FDiv, _native_fdiv), ('pmod', SRC_MOD, PMod, _native_mod), ('last', SRC_LAST, Last, _native_last),
          ('last', SRC_LAST, LastEmpty, _native_last_empty), ('find', SRC_FIND, Find, _native_find), ('setx', SRC_SETX, SetX, _native_setx), ('put', SRC_PUT, Put, _native_put),
          ('count', SRC_COUNT, Count, _native_count), ('rows', SRC_ROWS, Rows, _native_rows), ('fresh_rows', SRC_FRESHROWS, FreshRows, _native_fresh_rows), ('chk', SRC_CHK, Chk, _native_chk),
          ('sum_to', SRC_SUMTO, SumTo, _native_sumto)]
 # obligations that must fail although their label carries no F: marker (implicit obligations of the engine)
-EXPECT_FAIL_IMPLICIT = {'LastEmpty': ('no-IndexError',), 'SetX': ('frame@',)}
+EXPECT_FAIL_IMPLICIT = {'LastEmpty': ('no-IndexError',), 'SetX': ('frame@',), 'GetK': ('no-KeyError',), 'HalfGuarded': ('no-IndexError',)}
 
 def run(timeout=20000, verbose=False):
     """-> (ok, n_cases, n_obligations, problems[list of str], seconds)"""
@@ -347,8 +499,12 @@ def run(timeout=20000, verbose=False):
             except Exception as e: problems.append(f'{tag}: native witness crashed: {e!r}'); continue
         try:
             spec = cls(); fn = core.Fn('selftest', name, src_override=src); E = pyvc.run_function(fn, spec)
+        except pyvc.Unsupported as e:
+            if not getattr(cls, 'unsupported', False): problems.append(f'{tag}: engine failed: Unsupported: {e}')
+            continue
         except Exception as e:
             problems.append(f'{tag}: engine failed: {type(e).__name__}: {e}'); continue
+        if getattr(cls, 'unsupported', False): problems.append(f'UNSOUND: {tag}: the engine followed code it must refuse'); continue
         pyvc._POOL['args'] = (E, spec, timeout, 2, []); groups = {}
         for i, ob in enumerate(E.obs):
             nobs += 1; _, st, dt, det, mv = pyvc._decide_one(i)
